@@ -52,9 +52,9 @@ THEOREMS = [
 ]
 ASSUMPTIONS = [
     "cells are Python int / finite float / bool / str; floats are compared as the exact rationals they denote",
-    "a non-string cell offered to a text column by append_rows / append_column / at creation is refused by h5py only "
-    "after the dataset was resized or rebuilt (table grows by default rows / is reset); the model refuses it up front "
-    "and the generators do not produce it (type mismatch is not one of the refusal causes the property lists)",
+    "a non-string cell offered to a text column by append_rows / append_column / write_column is refused by h5py "
+    "only while the data are being stored; the code then rolls back (fixes ad11a3a, e4fbac6, 2f1693f) and the model "
+    "refuses it up front: same observable outcome (error class, table unchanged)",
     "numeric-literal strings offered to numeric columns, integers beyond 2^53 offered to float columns, out-of-range "
     "integers offered through write_column (NumPy wraps uint8 there), out-of-range floats offered through "
     "append_column (np.array casts silently) and NaN/inf are outside the modelled domain",
